@@ -10,8 +10,33 @@ pub mod stub {
     pub struct SystemTime { pub secs: u64, pub nanos: u32 }
     pub uninterp spec fn clock_now() -> SystemTime;
     impl SystemTime {
+        pub const UNIX_EPOCH: SystemTime = SystemTime { secs: 0, nanos: 0 };
         #[verifier::external_body]
         pub fn now() -> (r: SystemTime) ensures r == clock_now() { unimplemented!() }
+        /// Times before the epoch are outside this model (secs is unsigned): duration_since(UNIX_EPOCH) is Ok.
+        pub fn duration_since(&self, earlier: SystemTime) -> (r: Result<Duration, SystemTimeError>)
+            requires earlier.secs == 0 && earlier.nanos == 0, self.nanos < 1_000_000_000,
+            ensures r matches Ok(d) && d.secs == self.secs && d.nanos == self.nanos
+        { Ok(Duration { secs: self.secs, nanos: self.nanos }) }
+    }
+    pub struct SystemTimeError;
+    /// std::time::Duration
+    #[derive(Clone, Copy)]
+    pub struct Duration { pub secs: u64, pub nanos: u32 }
+    impl Duration {
+        pub fn subsec_nanos(&self) -> (r: u32) ensures r == self.nanos { self.nanos }
+        pub fn from_nanos(n: u64) -> (r: Duration) ensures r.secs == n / 1_000_000_000, r.nanos == n % 1_000_000_000
+        { Duration { secs: n / 1_000_000_000, nanos: (n % 1_000_000_000) as u32 } }
+    }
+    /// `SystemTime - Duration` (assumed std meaning; panics on underflow: precondition).
+    impl vstd::std_specs::ops::SubSpecImpl<Duration> for SystemTime {
+        open spec fn obeys_sub_spec() -> bool { true }
+        open spec fn sub_req(self, d: Duration) -> bool { d.secs == 0 && d.nanos <= self.nanos }
+        open spec fn sub_spec(self, d: Duration) -> SystemTime { SystemTime { secs: self.secs, nanos: (self.nanos - d.nanos) as u32 } }
+    }
+    impl std::ops::Sub<Duration> for SystemTime {
+        type Output = SystemTime;
+        fn sub(self, d: Duration) -> (r: SystemTime) { SystemTime { secs: self.secs, nanos: self.nanos - d.nanos } }
     }
     pub open spec fn st_le(a: SystemTime, b: SystemTime) -> bool { a.secs < b.secs || (a.secs == b.secs && a.nanos <= b.nanos) }
     pub open spec fn st_min_s(a: SystemTime, b: SystemTime) -> SystemTime { if st_le(a, b) { a } else { b } }
@@ -163,6 +188,8 @@ pub mod http {
         pub fn get(&self, k: HeaderName) -> (r: Option<&HeaderValue>)
             ensures r.is_some() == self.m@.dom().contains(k), r matches Some(v) ==> *v == self.m@[k]
         { unimplemented!() }
+        #[verifier::external_body]
+        pub fn contains_key(&self, k: HeaderName) -> (r: bool) ensures r == self.m@.dom().contains(k) { unimplemented!() }
         #[verifier::external_body]
         pub fn append(&mut self, k: HeaderName, v: HeaderValue) -> (r: bool)
             ensures final(self).appended@ == old(self).appended@.push((k, v.v@)), final(self).m == old(self).m, final(self).entity_hdrs == old(self).entity_hdrs
